@@ -37,4 +37,11 @@ def C17_rejoins_bounded : Prop :=
     ∃ tail : List Ev, tail.all okEv = true ∧ tail.length ≤ 6 + (final cfg evs).cons.length ∧
       (finalFrom cfg (final cfg evs) tail).rejoinNeeded = false
 
+/-- A join in flight always has something to wake it (monitor `joinProgress`, run on every
+    implementation trace): one of the coroutine's client requests is outstanding or a consumer is
+    draining.  On model traces the request-count half follows the pattern of `C16_one_join`; the
+    drain half needs the converse drain invariant (while `on_join_prepare` waits, an awaited
+    consumer is still draining), not proved. -/
+def C17_join_progress : Prop := ∀ (cfg : Cfg) (evs : List Ev), joinProgress (toMSteps (run cfg evs)) = true
+
 end Afkak.Props.C17.Open
